@@ -55,11 +55,12 @@ PROPS = {
         ],
     },
     "C07": {
-        "lean_modules": ["DocsModel.Props.C07"],
+        "lean_modules": ["DocsModel.Props.C07", "DocsModel.Props.C07Api"],
         "trusted_base": COMMON_TRUST + ["redb tables are modelled as sorted lists whose range() is the in-order filter by the bounds (element-wise tuple comparison, lexicographic byte strings); redb itself is not verified",],
         "assumptions": [
             "the namespace id supplied with a write capability is the public key of its secret (Ed25519 key derivation is outside the model)",
-            "the copy of the capability held by an open replica inside the store actor is covered by C14",
+            "the copy of the capability held by an open replica inside the store actor is covered by C14 (OpenInv) and lifted to the client API handlers in Props/C07Api.lean (api_import_write, api_write_after_import, api_import_read_keeps_write); the handlers of src/api/actor.rs are modelled by hand (Model/Rpc.lean) and tied to the real DocsApi by the client-API part of the harness",
+            "client API path: documents are never joined to live sync (start_sync / share are not exercised), irpc's in-process channel delivers requests in order",
         ],
     },
     "C13": {
